@@ -1237,9 +1237,14 @@ func (sc *serverConn) handleHeaderFrame(strm *Stream, fr *FrameHeader) error {
 		return NewGoAwayError(ProtocolError, "stream that depends on itself")
 	}
 
-	// Only a HEADERS or PUSH_PROMISE frame opens a header block, and only when
-	// there is nothing left over from a frame that cut a field in half.
-	blockStart := fr.Type() != FrameContinuation && len(strm.previousHeaderBytes) == 0
+	// Only a HEADERS or PUSH_PROMISE frame opens a header block. Where the
+	// block stands is kept on the stream, not worked out per frame: the frame
+	// boundary can fall anywhere, between a table size update and the first
+	// field, or inside that field, which is then decoded again from its
+	// start, size update included, when the rest of it arrives.
+	if fr.Type() != FrameContinuation {
+		strm.blockFields = 0
+	}
 
 	// Appending to the stream's own buffer and handing it back keeps the
 	// capacity across frames instead of allocating a header block every time.
@@ -1253,14 +1258,12 @@ func (sc *serverConn) handleHeaderFrame(strm *Stream, fr *FrameHeader) error {
 
 	var err error
 
-	fieldsProcessed := 0
-
 	for len(b) > 0 {
 		pb := b
 
 		var decoded bool
 
-		b, decoded, err = sc.dec.nextField(hf, blockStart, fieldsProcessed, b)
+		b, decoded, err = sc.dec.nextField(hf, true, strm.blockFields, b)
 		if err == nil && !decoded {
 			// the fragment ended in a table size update: no field
 			break
@@ -1338,7 +1341,7 @@ func (sc *serverConn) handleHeaderFrame(strm *Stream, fr *FrameHeader) error {
 				return NewResetStreamError(ProtocolError, fmt.Sprintf("invalid request pseudo-header %s", k))
 			}
 
-			fieldsProcessed++
+			strm.blockFields++
 			continue
 		}
 
@@ -1374,7 +1377,7 @@ func (sc *serverConn) handleHeaderFrame(strm *Stream, fr *FrameHeader) error {
 			req.Header.AddBytesKV(k, v)
 		}
 
-		fieldsProcessed++
+		strm.blockFields++
 	}
 
 	return err
